@@ -425,6 +425,13 @@ pub fn corpus() -> Vec<Item> {
         spec.lf_global_prefix = Some(dict(true));
         out.push(item("rgb-40x24-splines", &img, vec![write_modular_frame(&img, &spec).bytes], 1));
     }
+    // a JPEG transcode in a container: jbrd box (reconstruction data) before and after the codestream box
+    for (name, jbrd_first) in [("container-jbrd-first-jpeg16x8", true), ("container-jbrd-last-jpeg16x8", false)] {
+        let mut tp = crate::explore::Tape::default();
+        let c = crate::c17::cfg_from(&mut tp);
+        let (file, _jpeg) = crate::c17::spec_of(&c, 3).write_container(false, jbrd_first);
+        out.push(Item { name: name.into(), bytes: file, frames: 1, keyframes: 1, width: c.size.0 as u32, height: c.size.1 as u32 });
+    }
     // LZ77 copies inside Modular sub-bitstreams (striped image, Gradient predictor): special two-dimensional distance
     // codes and plain distances
     for (name, mode, w, h) in [("rgb-33x9-lz77-special", 1u32, 33usize, 9usize), ("gray-70x40-lz77-plain-groups", 2, 70, 40)] {
@@ -592,6 +599,14 @@ pub fn corpus() -> Vec<Item> {
             sk.tree = Node::leaf(5);
             sk.lf_global_prefix = Some(write_patches(&refs[..1], 1, &CodeOpts { use_prefix: true, ..Default::default() }));
             out.push(item("rgba-24x20-patches-layer-under-patched-keyframe", &img, vec![encode_frame(&img, &d0), write_modular_frame(&img, &sx).bytes, write_modular_frame(&img, &sk).bytes], 1));
+            // the same layer under a keyframe WITHOUT patches: the keyframe is a plain frame whose only dependency (the
+            // layer) has a dependency of its own
+            let mut fp = FrameHeader::modular_lossless(&img);
+            fp.blending_info = BlendingInfo { mode: BLEND_BLEND, alpha_channel: 0, clamp: false, source: 0 };
+            fp.ec_blending_info = vec![fp.blending_info.clone()];
+            let mut sp = ModularFrameSpec::new(fp, planes(24, 20, 4, 255, 8));
+            sp.tree = Node::leaf(5);
+            out.push(item("rgba-24x20-patched-layer-under-plain-keyframe", &img, vec![encode_frame(&img, &d0), write_modular_frame(&img, &sx).bytes, write_modular_frame(&img, &sp).bytes], 1));
         }
         // a frame whose alpha is coded at half resolution (ec_upsampling 2), blended (alpha-using modes) over a layer: the
         // new frame's alpha covers another region than its colour channels when a region of interest is requested
